@@ -481,6 +481,10 @@ func genC05CLI(t *rapid.T) c05CLICase {
 	c.Steps = append([]c05CLIStep{{Kind: "new"}, {Kind: "comment"}, {Kind: "comment"}}, rapid.SliceOfN(one, 2, 10).Draw(t, "steps")...)
 	// the shape of interest: times above the clock are stored locally, the clock files disappear, a write follows
 	c.Steps = append(c.Steps, c05CLIStep{Kind: "peeredit", Jump: rapid.IntRange(3, 400).Draw(t, "pjump")}, c05CLIStep{Kind: "pull"})
+	if rapid.IntRange(0, 2).Draw(t, "packRefs") == 0 {
+		// what `git gc` does between two commands: every reference moves into .git/packed-refs
+		c.Steps = append(c.Steps, c05CLIStep{Kind: "packrefs"})
+	}
 	if rapid.IntRange(0, 2).Draw(t, "badRef") == 0 {
 		// a reference under refs/bugs/ that is not a bug (damaged, or written by something else), listed first or last
 		c.Steps = append(c.Steps, c05CLIStep{Kind: "badref", Which: rapid.IntRange(0, 1).Draw(t, "badWhere")})
@@ -530,7 +534,7 @@ func runC05CLI(tb report.TB, rep *report.Reporter, c c05CLICase) {
 	}
 	ids := func(dir string) []string { return strings.Fields(RunCLI(dir, "bug", "-f", "id").Out) }
 	var kinds []string
-	lossAfterMerge, merged, badRef := false, false, false
+	lossAfterMerge, merged, badRef, packed := false, false, false, false
 	for i, s := range c.Steps {
 		kinds = append(kinds, s.Kind)
 		switch s.Kind {
@@ -555,6 +559,12 @@ func runC05CLI(tb report.TB, rep *report.Reporter, c c05CLICase) {
 				RunCLI(peerDir, "bug", "new", "-t", "peer bug", "-m", "m", "--non-interactive")
 			}
 			RunCLI(peerDir, "push", "origin")
+			continue
+		case "packrefs":
+			if res := RunGit(host, "pack-refs", "--all", "--prune"); res.Code != 0 {
+				tb.Fatalf("harness: pack-refs: %s", res.Out)
+			}
+			packed = true
 			continue
 		case "badref":
 			tree := strings.TrimSpace(RunGit(host, "hash-object", "-t", "tree", "-w", "--stdin").Out)
@@ -660,7 +670,7 @@ func runC05CLI(tb report.TB, rep *report.Reporter, c c05CLICase) {
 			}
 		}
 	}
-	rep.Case("cli|"+strings.Join(kinds, ","), lossAfterMerge, []string{"cli", fmt.Sprintf("clock-loss-after-merge:%v", lossAfterMerge), fmt.Sprintf("unreadable-reference-among-the-bugs:%v", badRef)}, c)
+	rep.Case("cli|"+strings.Join(kinds, ","), lossAfterMerge, []string{"cli", fmt.Sprintf("clock-loss-after-merge:%v", lossAfterMerge), fmt.Sprintf("unreadable-reference-among-the-bugs:%v", badRef), fmt.Sprintf("references-packed:%v", packed)}, c)
 }
 
 func TestC05CLI(t *testing.T) {
